@@ -331,18 +331,71 @@ func checkLoaderPipeline(w *World, r *Report) {
 		return
 	}
 	validate := w.FuncByRole("definition", "PipelineDef.validate", func(f *ssa.Function) bool { return recvIs(f, "PipelineDef") && sigHas(f, nil, []string{"error"}) })
-	for _, ld := range loaders {
-		r.Anchor("definition loader (decodes a file)", FuncName(ld))
-		var updates []*ssa.MapUpdate
-		allInstrs(ld, func(in ssa.Instruction) {
-			if mu, ok := in.(*ssa.MapUpdate); ok && strings.HasSuffix(w.AP(mu.Map), ".Pipelines") && strings.HasPrefix(w.AP(mu.Map), "recv.") {
-				updates = append(updates, mu)
+	// the per-file loader may be split: a function that decodes (and applies defaults) and one
+	// that validates and stores. Entry = the function of the package that reaches both; the
+	// rules about the store are checked in the storing function, the defaults rule along the
+	// entry's calls.
+	calleesIn := func(f *ssa.Function) []*ssa.Function {
+		var out []*ssa.Function
+		allInstrs(f, func(in ssa.Instruction) {
+			if c := callCommonOf(in); c != nil {
+				if g := c.StaticCallee(); g != nil && g.Blocks != nil && g.Package() == dp {
+					out = append(out, g)
+				}
 			}
 		})
-		if len(updates) == 0 {
-			r.Viol("loader.store", FuncName(ld)+": store into the merged map", w.Pos(ld.Pos()), "loader never stores into recv.Pipelines")
+		return out
+	}
+	storesIn := func(f *ssa.Function) []*ssa.MapUpdate {
+		var ups []*ssa.MapUpdate
+		allInstrs(f, func(in ssa.Instruction) {
+			if mu, ok := in.(*ssa.MapUpdate); ok && strings.HasSuffix(w.AP(mu.Map), ".Pipelines") && strings.HasPrefix(w.AP(mu.Map), "recv.") {
+				ups = append(ups, mu)
+			}
+		})
+		return ups
+	}
+	type split struct{ entry, decoder, storer *ssa.Function }
+	var splits []split
+	for _, ld := range loaders {
+		if len(storesIn(ld)) > 0 {
+			splits = append(splits, split{ld, ld, ld})
 			continue
 		}
+		// an entry that calls this decoder and a storing function
+		found := false
+		for _, e := range w.ModFuncs {
+			if e.Package() != dp || e.Parent() != nil {
+				continue
+			}
+			callsDec := false
+			var storer *ssa.Function
+			for _, g := range calleesIn(e) {
+				if g == ld {
+					callsDec = true
+				}
+				if len(storesIn(g)) > 0 {
+					storer = g
+				}
+			}
+			if callsDec && storer != nil {
+				splits = append(splits, split{e, ld, storer})
+				found = true
+			}
+		}
+		if !found {
+			r.Viol("loader.store", FuncName(ld)+": store into the merged map", w.Pos(ld.Pos()), "loader never stores into recv.Pipelines")
+		}
+	}
+	var entries []*ssa.Function
+	for _, sp := range splits {
+		entries = append(entries, sp.entry)
+		ld := sp.storer
+		r.Anchor("definition loader (decodes a file)", FuncName(sp.decoder))
+		if sp.storer != sp.decoder {
+			r.Anchor("definition loader (stores into the merged map)", FuncName(sp.storer))
+		}
+		updates := storesIn(ld)
 		for _, mu := range updates {
 			key := FuncName(ld) + ": " + w.AP(mu.Map) + "[…] = …"
 			pos := w.InstrPos(mu)
@@ -356,6 +409,42 @@ func checkLoaderPipeline(w *World, r *Report) {
 				if instrDominates(d, mu) {
 					okD = true
 				}
+			}
+			if !okD && sp.decoder != sp.storer {
+				// defaults are applied in the decoder before every success return, and the entry
+				// calls the decoder before the storing function
+				decDefs := findCalls(sp.decoder, func(n string, c *ssa.CallCommon) bool {
+					f := c.StaticCallee()
+					return f != nil && w.InModule(f) && w.storesField(f, "PipelineDef", "Concurrency")
+				})
+				allSucc := len(decDefs) > 0
+				allInstrs(sp.decoder, func(in ssa.Instruction) {
+					rt, ok := in.(*ssa.Return)
+					if !ok || rt.Block() == sp.decoder.Recover || len(rt.Results) == 0 || !w.maybeNilError(sp.decoder, rt, rt.Results[len(rt.Results)-1]) {
+						return
+					}
+					dom := false
+					for _, d := range decDefs {
+						if instrDominates(d, rt) {
+							dom = true
+						}
+					}
+					if !dom {
+						allSucc = false
+					}
+				})
+				var decCall, stCall ssa.Instruction
+				allInstrs(sp.entry, func(in ssa.Instruction) {
+					if c := callCommonOf(in); c != nil {
+						if c.StaticCallee() == sp.decoder {
+							decCall = in
+						}
+						if c.StaticCallee() == sp.storer {
+							stCall = in
+						}
+					}
+				})
+				okD = allSucc && decCall != nil && stCall != nil && instrDominates(decCall, stCall)
 			}
 			r.Check(okD, "loader.defaults", key, pos, "a call that applies the concurrency default dominates the store", "no defaults call dominates the store: concurrency 0 would be rejected or stored unset")
 			// validate()==nil edge
@@ -417,7 +506,7 @@ func checkLoaderPipeline(w *World, r *Report) {
 	}
 	// the recursive loader propagates errors of the per-file loader and hands out only its result
 	if lr := w.FuncByName("definition", "LoadRecursively"); lr != nil {
-		for _, ld := range loaders {
+		for _, ld := range entries {
 			for _, vc := range findCalls(lr, func(_ string, c *ssa.CallCommon) bool { return c.StaticCallee() == ld }) {
 				call, ok := vc.(*ssa.Call)
 				if !ok {
@@ -483,7 +572,8 @@ func checkValidationTable(w *World, r *Report) {
 	r.Anchor("validation function", FuncName(v))
 	fname := FuncName(v)
 	// region: from entry until the first loop header (the dependency loop)
-	res := w.EnumPaths(v, EnumOpts{StopBlock: func(b *ssa.BasicBlock) bool {
+	// (named predicates and an extracted dependency check are spliced in; the region ends at the first loop at any depth)
+	res := w.EnumPaths(v, EnumOpts{Inline: true, StopDeep: true, StopBlock: func(b *ssa.BasicBlock) bool {
 		for _, in := range b.Instrs {
 			if _, ok := in.(*ssa.Next); ok {
 				return true
@@ -548,7 +638,20 @@ func checkValidationTable(w *World, r *Report) {
 	// dependency loop: presence test for every depends_on entry in the same pipeline's tasks
 	okDep := false
 	var depIf *ssa.If
-	for _, f := range w.ifFacts(v) {
+	// the validation function and the helpers it calls directly with its own receiver
+	region := []*ssa.Function{v}
+	allInstrs(v, func(in ssa.Instruction) {
+		if c, ok := in.(*ssa.Call); ok {
+			if g := c.Call.StaticCallee(); g != nil && g.Blocks != nil && w.InModule(g) && len(c.Call.Args) >= 1 && w.AP(c.Call.Args[0]) == "recv" && g.Signature.Recv() != nil {
+				region = append(region, g)
+			}
+		}
+	})
+	var facts []ifFact
+	for _, f := range region {
+		facts = append(facts, w.ifFacts(f)...)
+	}
+	for _, f := range facts {
 		if f.Atom.Op == "true" && strings.HasPrefix(f.Atom.L, "has(recv.Tasks[") && strings.Contains(f.Atom.L, "rangeval(recv.Tasks).DependsOn[") {
 			missing := f.If.Block().Succs[f.SuccFalse]
 			if blockReturns(missing, func(rt *ssa.Return) bool { return len(rt.Results) == 1 && !isNilConst(rt.Results[0]) }) {
@@ -563,18 +666,23 @@ func checkValidationTable(w *World, r *Report) {
 	}
 	r.Check(okDep, "validate.dependencies", fname+": depends_on presence test", pos, "every depends_on entry of every task is looked up (comma-ok) in the pipeline's own tasks; a miss returns an error", "no presence test of depends_on entries in the pipeline's own tasks: a dependency on an unknown task loads")
 	// every nil return is after the loop over all tasks
-	var rng ssa.Instruction
-	allInstrs(v, func(in ssa.Instruction) {
-		if rg, ok := in.(*ssa.Range); ok && w.AP(rg.X) == "recv.Tasks" {
-			rng = in
-		}
-	})
-	okAll := rng != nil
-	allInstrs(v, func(in ssa.Instruction) {
-		if rt, ok := in.(*ssa.Return); ok && len(rt.Results) == 1 && isNilConst(rt.Results[0]) && rng != nil && !instrDominates(rng, rt) {
-			okAll = false
-		}
-	})
+	nRng := 0
+	okAll := true
+	for _, f := range region {
+		var rng ssa.Instruction
+		allInstrs(f, func(in ssa.Instruction) {
+			if rg, ok := in.(*ssa.Range); ok && w.AP(rg.X) == "recv.Tasks" {
+				rng = in
+				nRng++
+			}
+		})
+		allInstrs(f, func(in ssa.Instruction) {
+			if rt, ok := in.(*ssa.Return); ok && len(rt.Results) == 1 && isNilConst(rt.Results[0]) && (rng == nil || !instrDominates(rng, rt)) {
+				okAll = false
+			}
+		})
+	}
+	okAll = okAll && nRng > 0
 	r.Check(okAll, "validate.dependencies-all", fname+": success only after all tasks were checked", pos, "the loop over all tasks dominates every nil return", "a nil return is reachable without iterating over the tasks")
 
 	// setDefaults: concurrency 0 → 1, written back
